@@ -10,6 +10,7 @@ from vlib import graphs as g, ctxrun, vsched, explore, pipe
 ID = "C06"
 LEVEL = "model_checking"
 RULE = (
+    "(plus 26 failure cells with capacity 1-2 and 5 chunks, so that senders are blocked on FULL mailboxes when the failure happens) "
     "cells = graph {chain, diamond, multi-output with saved side output, chain with stored source, exhaust} x failing stage "
     "{source, mid plugin, multi-output plugin, loader, saver of target, saver of side output, consumer closing after k chunks, "
     "none} x chunk index {0,1,last} x mode {eager, lazy, worker pool}; for each cell every schedule of the real threaded "
